@@ -135,7 +135,7 @@ fn main() {
     let n = model::selftest::run();
     let ctx = Ctx::new(&prop, tier, &dispatch, transcript.as_deref());
     ctx.count("model_selftest_checks", n as u64);
-    match prop.as_str() {
+    let run = || match prop.as_str() {
         "C01" => props::c01::run(&ctx),
         "C02" => props::c02::run(&ctx),
         "C03" => props::c03::run(&ctx),
@@ -145,15 +145,26 @@ fn main() {
         "C08" => props::c08::run(&ctx),
         "C09" => props::c09::run(&ctx),
         "C12" => props::c12::run(&ctx),
+        "C13" => props::c13::run(&ctx),
         "C14" => props::c14::run(&ctx),
         "C15" => props::c15::run(&ctx),
         "C16" => props::c16::run(&ctx),
         "C17" => props::c17::run(&ctx),
-        "C13" => props::c13::run(&ctx),
         _ => {
             eprintln!("unknown property {}", prop);
             std::process::exit(2);
         }
+    };
+    // A panic that escapes an explorer means that an assumption the explorer makes about the
+    // code under test failed outside a guarded call (for instance a constructor that must
+    // succeed on a model-valid input did not).  On the unchanged tree this never happens; it is
+    // reported as a violation with the panic message rather than as a machinery crash.
+    if let Err(e) = ev::guarded(run) {
+        ctx.violation(
+            "engine.assumption",
+            &format!("an assumption of the explorer about the code under test failed: {}", e),
+            json!({"kind": "engine_panic", "message": e}),
+        );
     }
     // entry-of-kernel monitors of the vector fields (hook H6): largest lane excess seen per kernel
     with_avx2!({
